@@ -85,6 +85,16 @@ def dotted(name):
 type_params = sym(":tp") + brackets(many(
     maybe_annotated(SYM) | unpack("either", Symbol)))
 
+def compile_lazy_expr(compiler, form):
+    """Compile a form that Python evaluates lazily in a scope of its own
+    (a type-alias value or a type-parameter bound), so there's no place to
+    put any statements it would need."""
+    ret = compiler.compile(form)
+    if ret.stmts:
+        compiler._syntax_error(form, "a form that requires Python statements is not allowed here")
+    return ret.force_expr
+
+
 def digest_type_params(compiler, tp):
     "Return a `type_params` attribute for `FunctionDef` etc."
 
@@ -100,7 +110,7 @@ def digest_type_params(compiler, tp):
             if is_unpack("mapping", x) else
         asty.TypeVar(x[0],
                name = mangle(x[0]),
-               bound = x[1] and compiler.compile(x[1]).force_expr)
+               bound = x[1] and compile_lazy_expr(compiler, x[1]))
         for x in tp[0]])
 
 
@@ -618,7 +628,7 @@ def compile_assign(
 def compile_deftype(compiler, expr, root, tp, name, value):
     return asty.TypeAlias(expr,
        name = asty.Name(name, id = mangle(name), ctx = ast.Store()),
-       value = compiler.compile(value).force_expr,
+       value = compile_lazy_expr(compiler, value),
         **digest_type_params(compiler, tp))
 
 
@@ -956,7 +966,10 @@ def compile_comprehension(compiler, expr, root, parts, final):
                         return Result(stmts=[asty.Pass(expr)])
                     if ends_with_unpack:
                         ends_with_unpack = False
-                        to_loop = Result(expr =
+                        to_loop = Result(
+                            # Keep any statements the operand needs.
+                            stmts = (key if dict_unpack else elt).stmts,
+                            expr =
                             # Call `key.items()` so we yield (key,
                             # value) pairs instead of just keys.
                             asty.Call(key,
@@ -1678,13 +1691,17 @@ def compile_function_node(compiler, expr, node, decorators, tp, name, args, retu
         enode = asty.Expr if scope.is_async and scope.has_yield else asty.Return
         body += enode(body.expr, value=body.expr)
 
+    if returns is not None:
+        ret += compiler.compile(returns)
+        returns = ret.force_expr
+
     ret += node(
         expr,
         name=name,
         args=args,
         body=body.stmts or [asty.Pass(expr)],
         decorator_list=decorators,
-        returns=compiler.compile(returns).force_expr if returns is not None else None,
+        returns=returns,
         **digest_type_params(compiler, tp),
     )
 
